@@ -10,7 +10,7 @@
 From Coq Require Import List NArith ZArith Bool.
 Import ListNotations.
 Require Import Verif.Lib.Wire Verif.Lib.Text Verif.Lib.PathNorm Verif.Lib.C02PathNorm Verif.Lib.C02Expr
-               Verif.Gen.Facts_C02 Verif.Model.C02 Verif.Proofs.C02 Verif.Proofs.C02_memo.
+               Verif.Gen.Facts_C02 Verif.Model.C02 Verif.Proofs.C02 Verif.Proofs.C02_memo Verif.Proofs.C02_gen.
 Close Scope N_scope.
 
 (* the regenerated source facts are the ones the proofs were written against
@@ -206,3 +206,85 @@ Theorem C02_ops_history_free : forall os C,
   caches_ok C -> run_ops_st C os = map pure_op os.
 Proof. exact ops_history_free. Qed.
 Print Assumptions C02_ops_history_free.
+
+(* ====================================================================== *)
+(* The program regenerated from src/pyramid/traversal.py on this run (Gen/Facts_C02.v, translated by
+   harness/c02/translate.py) equals the reference model, for all inputs -- this replaces the shape pins of
+   split_path_info, decode_path_info, traversal_path_info and of the walk part of __call__ *)
+Theorem C02_gen_split_path_info_is_model : forall p, gen_split_path_info p = split_path_info p.
+Proof. exact gen_split_path_info_is_model. Qed.
+Print Assumptions C02_gen_split_path_info_is_model.
+
+Theorem C02_gen_decode_path_info_is_model : forall p, gen_decode_path_info p = decode_path_info p.
+Proof. exact gen_decode_path_info_is_model. Qed.
+Print Assumptions C02_gen_decode_path_info_is_model.
+
+Theorem C02_gen_traversal_path_info_is_model : forall p, gen_traversal_path_info p = traversal_path_info p.
+Proof. exact gen_traversal_path_info_is_model. Qed.
+Print Assumptions C02_gen_traversal_path_info_is_model.
+
+Theorem C02_gen_call_tail_is_model : forall vpath path sub vt vidx root,
+  gen_call_tail vpath path sub vt vidx root = call_tail vpath_tuple_mode vpath path sub vt vidx root.
+Proof. exact gen_call_tail_is_model. Qed.
+Print Assumptions C02_gen_call_tail_is_model.
+
+(* hand-modelled (pinned) preamble + regenerated tail = the model of __call__ *)
+Theorem C02_gen_traverser_call_is_model : forall root q, gen_traverser_call root q = traverser_call root q.
+Proof. exact gen_traverser_call_is_model. Qed.
+Print Assumptions C02_gen_traverser_call_is_model.
+
+(* the property theorems restated about the regenerated program *)
+Theorem C02_gen_traverser_resolves : forall root q d,
+  gen_traverser_call root q = Ok d ->
+  exists path sub vt ctx consumed rest,
+    path_and_subpath q = Ok (path, sub) /\ vroot_tuple_of q = Ok vt /\
+    walk_outcome root (vt ++ gen_split_path_info path) ctx consumed rest /\
+    t_context d = fst ctx /\
+    t_view_name d = view_name_of rest /\
+    t_subpath d = subpath_of sub rest /\
+    t_traversed d = consumed ++ firstn (length vt) rest /\
+    t_virtual_root_path d = vt /\ t_root d = fst root /\
+    ((length vt <= length consumed /\
+        exists v c', descend root vt = Some v /\ t_virtual_root d = fst v /\ consumed = vt ++ c' /\
+                     descend v c' = Some ctx /\ exists suffix, t_context d = fst v ++ suffix)
+     \/ (length consumed < length vt /\ t_virtual_root d = fst root /\
+         exists more, more <> [] /\ vt = consumed ++ more)).
+Proof. exact gen_traverser_resolves. Qed.
+Print Assumptions C02_gen_traverser_resolves.
+
+Theorem C02_gen_traversed_partial : forall root q,
+  q_vroot q = None -> gen_traverser_call root q = spec_traverser root q.
+Proof. exact gen_traversed_partial. Qed.
+Print Assumptions C02_gen_traversed_partial.
+
+Theorem C02_gen_traversed_refuted :
+  exists d s, gen_traverser_call ([], wit_tree) wit_traversed = Ok d /\
+              spec_traverser ([], wit_tree) wit_traversed = Ok s /\
+              t_traversed s = [ta] /\ t_traversed d = [ta; tx] /\ d <> s.
+Proof. exact gen_traversed_refuted. Qed.
+Print Assumptions C02_gen_traversed_refuted.
+
+Theorem C02_gen_split_normal : forall p, Forall normal_seg (gen_split_path_info p).
+Proof. exact gen_split_normal. Qed.
+Print Assumptions C02_gen_split_normal.
+
+Theorem C02_gen_split_never_above_root : forall k p,
+  gen_split_path_info (updirs k (slash :: p)) = gen_split_path_info (slash :: p).
+Proof. exact gen_split_never_above_root. Qed.
+Print Assumptions C02_gen_split_never_above_root.
+
+Theorem C02_gen_split_idempotent : forall p,
+  gen_split_path_info (join [slash] (gen_split_path_info p)) = gen_split_path_info p.
+Proof. exact gen_split_idempotent. Qed.
+Print Assumptions C02_gen_split_idempotent.
+
+Theorem C02_gen_traversal_path_info_normal : forall p l,
+  gen_traversal_path_info p = Ok l -> Forall normal_seg l.
+Proof. exact gen_traversal_path_info_normal. Qed.
+Print Assumptions C02_gen_traversal_path_info_normal.
+
+Theorem C02_gen_dotdot_at_root : forall root p md vr,
+  gen_traverser_call root (mkReq (Some (slash :: dot :: dot :: slash :: p)) md vr)
+  = gen_traverser_call root (mkReq (Some (slash :: p)) md vr).
+Proof. exact gen_dotdot_at_root. Qed.
+Print Assumptions C02_gen_dotdot_at_root.
